@@ -137,72 +137,3 @@ Proof.
     split; [apply head_not_null0; [exact Hfit|cbn; lia]|apply enc_head_nonempty].
 Qed.
 
-(* ---- induction over schemas, through the nested lists ---- *)
-Section SchemaInd.
-  Variable P : schema -> Prop.
-  Hypothesis HUInt : forall bits, P (SUInt bits).
-  Hypothesis HInt : P SInt64.
-  Hypothesis HBytes : P SBytes.
-  Hypothesis HBool : P SBool.
-  Hypothesis HVec : forall s, P s -> P (SVec s).
-  Hypothesis HArray : forall fields, Forall (fun f => P (snd f)) fields -> P (SArray fields).
-  Hypothesis HFlat : forall arms, Forall (fun a => Forall (fun f => P (snd f)) (snd a)) arms -> P (SFlat arms).
-  Hypothesis HIndex : forall idxs, P (SIndexOnly idxs).
-
-  Fixpoint schema_ind' (s : schema) : P s :=
-    let fix go (fs : list (bool * schema)) : Forall (fun f => P (snd f)) fs :=
-      match fs with
-      | [] => Forall_nil _
-      | f :: r => Forall_cons f (schema_ind' (snd f)) (go r)
-      end in
-    let fix goa (arms : list (Z * list (bool * schema))) : Forall (fun a => Forall (fun f => P (snd f)) (snd a)) arms :=
-      match arms with
-      | [] => Forall_nil _
-      | a :: r => Forall_cons a (go (snd a)) (goa r)
-      end in
-    match s with
-    | SUInt bits => HUInt bits
-    | SInt64 => HInt
-    | SBytes => HBytes
-    | SBool => HBool
-    | SVec s' => HVec s' (schema_ind' s')
-    | SArray fields => HArray fields (go fields)
-    | SFlat arms => HFlat arms (goa arms)
-    | SIndexOnly idxs => HIndex idxs
-    end.
-End SchemaInd.
-
-Lemma fields_ok (fields : list (bool * schema)) :
-  Forall (fun f => wf_schema (snd f) = true -> codec_ok (codec_of (snd f))) fields ->
-  forallb (fun f => wf_schema (snd f)) fields = true ->
-  Forall (fun f : field => codec_ok (snd f)) (map (fun f => (fst f, codec_of (snd f))) fields).
-Proof.
-  induction 1 as [|f fs Hf _ IH]; cbn [forallb map]; intros Hwf; [constructor|].
-  apply andb_true_iff in Hwf as [H1 H2]. constructor; [cbn [snd]; auto|auto].
-Qed.
-
-Theorem codec_of_ok s : wf_schema s = true -> codec_ok (codec_of s).
-Proof.
-  induction s as [bits| | | |s IH|fields IH|arms IH|idxs] using schema_ind'; cbn [wf_schema codec_of]; intros Hwf.
-  - apply c_uint_ok. unfold u64_max1.
-    repeat (apply orb_true_iff in Hwf as [Hwf|Hwf]); apply Z.eqb_eq in Hwf; subst; cbn; lia.
-  - apply c_i64_ok.
-  - apply c_bytes_ok.
-  - apply c_bool_ok.
-  - apply c_vec_ok, IH, Hwf.
-  - apply andb_true_iff in Hwf as [Hlen Hwf]. apply c_struct_ok.
-    + unfold len in *. rewrite map_length. lia.
-    + apply fields_ok; assumption.
-  - apply andb_true_iff in Hwf as [_ Hwf]. apply c_flat_ok.
-    induction IH as [|a arms Ha _ IHa]; cbn [forallb map] in *; [constructor|].
-    apply andb_true_iff in Hwf as [H1 H2]. apply andb_true_iff in H1 as [Hlen Hfs].
-    constructor; [|apply IHa, H2]. cbn [snd]. split.
-    + unfold len in *. rewrite map_length. lia.
-    + apply fields_ok; assumption.
-  - apply c_index_ok.
-Qed.
-
-(* the law, in the form of the assignment *)
-Theorem schema_roundtrip_proof s v r :
-  wf_schema s = true -> has_type v s -> dec_schema s (enc_schema s v ++ r) = DOk (v, r).
-Proof. intros Hwf Hty. apply (codec_of_ok s Hwf v r Hty). Qed.
